@@ -95,6 +95,12 @@ def equal(a, b, path, diffs, fmt):
         if not isinstance(b, (int, float, np.integer, np.floating)) or isinstance(b, (bool, np.bool_)):
             diffs.append(f"{path}: number {a!r} read back as {type(b).__name__} {b!r:.40}")
             return
+        if isinstance(a, (int, np.integer)):
+            # integers compare exactly (python compares int with float without rounding)
+            bb = int(b) if isinstance(b, (int, np.integer)) else float(b)
+            if not (bb == int(a)):
+                diffs.append(f"{path}: integer {a!r} read back as {b!r}")
+            return
         fa, fb = float(a), float(b)
         if not (fa == fb or (math.isnan(fa) and math.isnan(fb))):
             diffs.append(f"{path}: {a!r} read back as {b!r}")
